@@ -484,7 +484,7 @@ func (w *worker[T, JobType]) goListenToContext() {
 		w.mx.RUnlock()
 
 		if current {
-			w.Stop()
+			w.stop()
 		}
 	}(w.ctx)
 }
@@ -645,6 +645,15 @@ func (w *worker[T, JobType]) Pause() error {
 }
 
 func (w *worker[T, JobType]) Stop() error {
+	// Stop and Restart tear down and rebuild the same per-run state: one at a time
+	w.restartMx.Lock()
+	defer w.restartMx.Unlock()
+
+	return w.stop()
+}
+
+// stop is Stop for callers that hold restartMx.
+func (w *worker[T, JobType]) stop() error {
 	switch s := w.status.Load(); s {
 	case stopped:
 		return nil
